@@ -367,6 +367,11 @@ Lemma skipn_app_l {A} (a b : list A) : skipn (length a) (a ++ b) = b.
 Proof. rewrite skipn_app, skipn_all, Nat.sub_diag. reflexivity. Qed.
 Lemma firstn_app_l {A} (a b : list A) : firstn (length a) (a ++ b) = a.
 Proof. rewrite firstn_app, firstn_all, Nat.sub_diag, firstn_O, app_nil_r. reflexivity. Qed.
+Lemma firstn_add (l : bytes) : forall p k, (p <= length l)%nat -> firstn (p + k) l = firstn p l ++ firstn k (skipn p l).
+Proof.
+  induction l as [|a l IH]; intros [|p] k H; simpl in *; try reflexivity; try lia.
+  f_equal. apply IH. lia.
+Qed.
 Lemma to_nat_zlen (a : bytes) : Z.to_nat (zlen a) = length a.
 Proof. unfold zlen. lia. Qed.
 Lemma skipn_firstn_mid (l a b c : bytes) p q :
@@ -465,6 +470,88 @@ Inductive Lossless : bytes -> Z -> bytes -> list Stmt -> Prop :=
     Gap d g d' -> RawOf d' raw st -> raw <> [] -> Pos st = off + zlen g ->
     Lossless d' (off + zlen g + zlen raw) rest ss ->
     Lossless d off (g ++ raw ++ rest) (st :: ss).
+
+(** ** Comments: which comment segments a statement carries (round 5)
+
+    [SegC seg rest cs cs']: one segment that [stmt] strips off the front of the input between two
+    statements, [rest] being everything after it, and what it does to the comment group
+    ([Scanner.comments]): white space keeps it; a terminated comment is appended, unless the text
+    after it starts with an empty line (two newlines after a block comment, one after a line
+    comment, whose own newline is part of it) - then the group is *emptied*; a DELIMITER command
+    line empties it ([emit]). [GapCs g rest cs cs'] is a sequence of such segments. *)
+Definition blank_after (right rest : bytes) : bool :=
+  has_prefix rest NLNL || (bytes_eqb right NL && has_prefix rest NL).
+
+Inductive SegC : bytes -> bytes -> list bytes -> list bytes -> Prop :=
+| SC_space sp rest cs : Spaces sp -> SegC sp rest cs cs
+| SC_comment left body right sp rest cs :
+    index_of (body ++ right) right = Some (length body) ->
+    ((left = [45%N; 45%N] /\ right = NL) \/ (left = [47%N; 42%N] /\ right = [42%N; 47%N])
+     \/ (HashComments o = true /\ left = [35%N] /\ right = NL)) ->
+    Spaces sp -> starts_space rest = false ->
+    SegC ((left ++ body ++ right) ++ sp) rest cs
+         (if blank_after right (sp ++ rest) then [] else cs ++ [left ++ body ++ right])
+| SC_delim kw arg nl sp rest cs :
+    length kw = 9%nat -> has_prefix_ci kw W_DELIMITER = true ->
+    (exists t, arg = 32%N :: t) -> ~ In 10%N arg -> (nl = NL \/ (nl = [] /\ sp ++ rest = [])) ->
+    Spaces sp -> SegC (kw ++ arg ++ nl ++ sp) rest cs [].
+
+Inductive GapCs : bytes -> bytes -> list bytes -> list bytes -> Prop :=
+| GCs_nil rest cs : GapCs [] rest cs cs
+| GCs_cons seg g rest cs cs1 cs2 :
+    SegC seg (g ++ rest) cs cs1 -> GapCs g rest cs1 cs2 -> GapCs (seg ++ g) rest cs cs2.
+
+Lemma GapCs_snoc g : forall seg rest cs cs1 cs2,
+  GapCs g (seg ++ rest) cs cs1 -> SegC seg rest cs1 cs2 -> GapCs (g ++ seg) rest cs cs2.
+Proof.
+  intros seg rest cs cs1 cs2 H. remember (seg ++ rest) as r eqn:Er. revert Er.
+  induction H as [r cs|sg g r cs ca cb HS HG IH]; intros Er HS2; subst r.
+  - simpl. rewrite <- (app_nil_r seg). eapply GCs_cons; [rewrite app_nil_l; exact HS2|apply GCs_nil].
+  - rewrite <- app_assoc. eapply GCs_cons; [rewrite <- app_assoc; exact HS|]. apply IH; auto.
+Qed.
+
+(** soundness reading of [GapCs]: every member of the resulting group is a terminated comment
+    that occurs in the gap (or was in the group before). *)
+Definition InGap (x c : bytes) : Prop := exists a b, x = a ++ c ++ b /\ CommentSeg c.
+
+Lemma GapCs_sound g rest cs cs' : GapCs g rest cs cs' -> forall pre,
+  Forall (InGap pre) cs -> Forall (InGap (pre ++ g)) cs'.
+Proof.
+  induction 1 as [rest cs|seg g rest cs cs1 cs2 HS HG IH]; intros pre HF.
+  - rewrite app_nil_r. exact HF.
+  - rewrite app_assoc. apply IH.
+    assert (Forall (InGap (pre ++ seg)) cs) as HF'.
+    { eapply Forall_impl; [|exact HF]. intros c (a & b & -> & HC). exists a, (b ++ seg).
+      split; [rewrite <- !app_assoc; reflexivity|exact HC]. }
+    inversion HS; subst.
+    + exact HF'.
+    + destruct (blank_after _ _); [constructor|]. apply Forall_app. split; [exact HF'|].
+      constructor; [|constructor]. exists pre, sp. split; [reflexivity|].
+      exists left, right, body. auto.
+    + constructor.
+Qed.
+
+(** the same for every option set: with [GoCommand] a statement may be followed by a segment [go]
+    (the consumed GO batch separator, [[]] without the option) and its [Pos] is too large by
+    exactly the length of that segment ([emit]: [Pos = total - len(text)], [total] already counts
+    the separator). Round 5: [Comments st] is the comment group that the segments of the gap [g]
+    before the statement leave ([GapCs], starting from the empty group). *)
+Inductive LosslessG : bytes -> Z -> bytes -> list Stmt -> Prop :=
+| LG_end d off g d' : Gap d g d' -> LosslessG d off g []
+| LG_stmt d off g d' raw go rest st ss :
+    Gap d g d' -> RawOf d' raw st -> raw ++ go <> [] -> (go = [] \/ GoCommand o = true) ->
+    Pos st = off + zlen g + zlen go ->
+    GapCs g (raw ++ go ++ rest) [] (Comments st) ->
+    LosslessG d' (off + zlen g + zlen raw + zlen go) rest ss ->
+    LosslessG d off (g ++ raw ++ go ++ rest) (st :: ss).
+
+Lemma LosslessG_noGo d off inp ss : GoCommand o = false -> LosslessG d off inp ss -> Lossless d off inp ss.
+Proof.
+  intros noGo H. induction H as [d off g d' HG|d off g d' raw go rest st ss HG HR Hne Hgo HP HC HL IH].
+  - eapply LL_end; exact HG.
+  - destruct Hgo as [->|Hgo]; [|congruence]. rewrite app_nil_r in Hne. change (zlen []) with 0 in *.
+    rewrite Z.add_0_r in *. simpl. eapply LL_stmt; eauto.
+Qed.
 
 (** ** comment *)
 Lemma comment_cases s left right s' :
@@ -709,6 +796,256 @@ Proof.
   destruct l as [|x [|y l']]; cbv [skipn]; intros H1 H2; inversion H1; inversion H2; reflexivity.
 Qed.
 
+Ltac inv_bind_as H a Ha := apply bind_ok in H; destruct H as (a & Ha & H).
+
+(** ** the GO batch separator (GoCommand) *)
+Lemma skipGoCount_adv f s s' : skipGoCount f s = Ok s' -> adv s s'.
+Proof.
+  unfold skipGoCount. intros H. inv_bind_as H r Hr.
+  destruct (rune_is r 32) eqn:Er; [|inversion H; apply adv_refl].
+  destruct r as [c|]; [|discriminate]. simpl in Er. apply N.eqb_eq in Er. subst c.
+  destruct (pick_32 s) as [Hp0 _]; [rewrite Hr; reflexivity|].
+  cbv zeta in H. inv_bind_as H r0 Hr0. rewrite Hr in Hr0. inversion Hr0; subst r0. clear Hr0.
+  inv_bind_as H s1 Hs1.
+  destruct (to_eol_loop_spec _ _ _ _ Hs1 Hp0 ltac:(exists 32%N; split; [reflexivity|discriminate]))
+    as (seg & _ & _ & _ & S4).
+  inv_bind_as H raw Hraw. destruct (atoi_ok _); [|discriminate]. inversion H; subst. exact S4.
+Qed.
+
+Lemma split3 (l : bytes) k p : (k <= p)%nat -> l = firstn k l ++ skipn k (firstn p l) ++ skipn p l.
+Proof.
+  intros H. rewrite <- (firstn_skipn p l) at 1. rewrite <- (firstn_skipn k (firstn p l)) at 1.
+  rewrite firstn_firstn, Nat.min_l by lia. rewrite <- app_assoc. reflexivity.
+Qed.
+
+(** * Comments (round 5): the functions that do not touch [Scanner.comments] *)
+Lemma next_cm s r s' : next s = Ok (r, s') -> comments s' = comments s.
+Proof.
+  destruct r as [r|]; intros H.
+  - apply next_some in H as (rest & w & _ & _ & _ & -> & _). reflexivity.
+  - apply next_none in H as [-> _]. reflexivity.
+Qed.
+Lemma skipQuote_loop_cm f : forall s p0 q e s', skipQuote_loop f s p0 q e = Ok s' -> comments s' = comments s.
+Proof.
+  induction f as [|f IH]; intros s p0 q e s' H; simpl in H; [discriminate|].
+  inv_bind H. destruct a as [r s1]. pose proof (next_cm _ _ _ Ha) as C1.
+  destruct r as [c|].
+  - destruct (N.eqb c 92 && e).
+    + inv_bind H. destruct a as [r2 s2]. simpl in H. rewrite (IH _ _ _ _ _ H), (next_cm _ _ _ Ha0). exact C1.
+    + destruct (N.eqb c q); [inversion H; subst; exact C1|]. rewrite (IH _ _ _ _ _ H). exact C1.
+  - unfold fail in H. inv_bind H. discriminate.
+Qed.
+Lemma skipQuote_cm o f s q s' : skipQuote o f s q = Ok s' -> comments s' = comments s.
+Proof. unfold skipQuote. intros H. inv_bind H. eapply skipQuote_loop_cm; exact H. Qed.
+Lemma skipDollarQuote_loop_cm f : forall s m s', skipDollarQuote_loop f s m = Ok s' -> comments s' = comments s.
+Proof.
+  induction f as [|f IH]; intros s m s' H; simpl in H; [discriminate|].
+  inv_bind H. destruct a as [r s1]. pose proof (next_cm _ _ _ Ha) as C1.
+  destruct r as [c|].
+  - destruct (N.eqb c 36).
+    + inv_bind H. destruct (has_prefix a m).
+      * inversion H; subst. exact C1.
+      * rewrite (IH _ _ _ H). exact C1.
+    + rewrite (IH _ _ _ H). exact C1.
+  - destruct (delim s1); [unfold fail in H; inv_bind H; discriminate|]. inversion H; subst; exact C1.
+Qed.
+Lemma skipDollarQuote_cm f s s' : skipDollarQuote f s = Ok s' -> comments s' = comments s.
+Proof.
+  unfold skipDollarQuote. intros H. inv_bind H.
+  destruct (re_dollar_quote a) as [n|]; [|unfold fail in H; inv_bind H; discriminate].
+  apply skipDollarQuote_loop_cm in H. exact H.
+Qed.
+Lemma to_eol_loop_cm f : forall s r s', to_eol_loop f s r = Ok s' -> comments s' = comments s.
+Proof.
+  induction f as [|f IH]; intros s r s' H; simpl in H; [discriminate|].
+  destruct r as [c|]; [|inversion H; reflexivity]. destruct (N.eqb c 10); [inversion H; reflexivity|].
+  inv_bind H. destruct a as [r1 s1]. simpl in H. rewrite (IH _ _ _ H). eapply next_cm; exact Ha.
+Qed.
+Lemma skipGoCount_cm f s s' : skipGoCount f s = Ok s' -> comments s' = comments s.
+Proof.
+  unfold skipGoCount. intros H. inv_bind H. destruct (rune_is a 32); [|inversion H; reflexivity].
+  cbv zeta in H. inv_bind H. inv_bind H. inv_bind H. destruct (atoi_ok _); [|discriminate]. inversion H; subst.
+  eapply to_eol_loop_cm; eauto.
+Qed.
+
+Local Arguments blank_after : simpl never.
+
+(** [comment], with what it does to the comment group. *)
+Lemma comment_casesC s left right s' :
+  comment s left right = Ok s' -> 0 <= pos s ->
+  (adv s s' /\ comments s' = comments s) \/
+  (pos s = zlen left /\ exists body sp,
+     skipn (Z.to_nat (pos s)) (input s) = body ++ right ++ sp ++ input s' /\
+     index_of (body ++ right) right = Some (length body) /\ Spaces sp /\
+     starts_space (input s') = false /\ pos s' = 0 /\
+     comments s' = if blank_after right (sp ++ input s') then []
+                   else comments s ++ [firstn (Z.to_nat (pos s)) (input s) ++ body ++ right]).
+Proof.
+  unfold comment. intros H Hp. inv_bind H. rename a into tl.
+  apply slice_from_ok in Ha as [Hb Htl].
+  destruct (index_of tl right) as [i|] eqn:Ei; [|inversion H; left; split; [apply adv_refl|reflexivity]].
+  destruct (negb (pos s =? zlen left)) eqn:En.
+  { inversion H. left. split; [apply adv_addPos; pose proof (zlen_nonneg right); lia|reflexivity]. }
+  bnorm. right. split; [exact En|].
+  inv_bind H. rename a into c. inv_bind H. rename a into rest. inversion H; subst s'; clear H.
+  apply slice_from_ok in Ha0 as [_ Hrest]. simpl in Hrest.
+  apply slice_to_ok in Ha as [_ Hc]. simpl in Hc.
+  pose proof (index_of_spec _ _ _ Ei) as [_ Hi].
+  pose proof (index_of_app _ _ _ Ei) as Happ.
+  pose proof (index_of_firstn _ _ _ Ei) as Hfirst.
+  assert (rest = skipn (i + length right) tl) as Hrest'.
+  { rewrite Hrest, Htl. rewrite skipn_to_nat_add by (pose proof (zlen_nonneg right); lia).
+    f_equal. unfold zlen. lia. }
+  destruct (trim_left_decomp rest) as (sp & Hsp & Hsp2 & Hsp3).
+  exists (firstn i tl), sp.
+  assert (length (firstn i tl) = i) as Hlb by (rewrite firstn_length; lia).
+  assert (firstn (i + length right) tl = firstn i tl ++ right) as Hbr.
+  { rewrite Happ at 1. rewrite app_assoc. rewrite <- Hlb at 1. rewrite <- app_length, firstn_app_l. reflexivity. }
+  assert (c = firstn (Z.to_nat (pos s)) (input s) ++ firstn i tl ++ right) as Hc'.
+  { rewrite Hc. transitivity (firstn (Z.to_nat (pos s) + (i + length right)) (input s)).
+    - f_equal. unfold zlen. lia.
+    - rewrite firstn_add by (unfold zlen in Hb; lia). rewrite <- Htl, Hbr. reflexivity. }
+  match goal with |- context[skipSpaces (if ?b then _ else _)] => change b with (blank_after right rest) end.
+  destruct (blank_after right rest) eqn:Eb; simpl;
+  (split; [rewrite <- Htl; rewrite Happ at 1; rewrite <- Hrest'; f_equal; f_equal; exact Hsp|]);
+  (split; [rewrite <- Hbr, Hlb; exact Hfirst|]); (split; [exact Hsp2|]); (split; [exact Hsp3|]);
+  (split; [reflexivity|]); rewrite <- Hsp, Eb, ?Hc'; reflexivity.
+Qed.
+
+Lemma delimCmd_cm o f s s' : delimCmd o f s = Ok s' -> s' = s \/ (comments s' = [] /\ pos s' = 0).
+Proof.
+  unfold delimCmd. intros H. inv_bind H. destruct (negb _); [inversion H; left; reflexivity|]. right.
+  repeat (let a := fresh "x" in let Ha := fresh "Hx" in apply bind_ok in H; destruct H as (a & Ha & H)).
+  match goal with HE : emit _ _ _ = Ok _ |- _ =>
+    unfold emit in HE; apply bind_ok in HE; destruct HE as (rr & _ & HE); inversion HE; subst end.
+  inversion H; subst. simpl. split; reflexivity.
+Qed.
+
+Section StripC.
+Variable o : opts.
+
+(** one step of the comment group over one iteration of [stmt]'s loop *)
+Definition CmStep (s0 s1 : scanner) : Prop :=
+  (input s1 = input s0 /\ comments s1 = comments s0) \/
+  (pos s0 = 0 /\ pos s1 = 0 /\ exists seg, input s0 = seg ++ input s1 /\
+     SegC o seg (input s1) (comments s0) (comments s1)).
+
+Lemma comment_stripC s0 s left right s1 :
+  comment s left right = Ok s1 -> adv s0 s -> comments s = comments s0 -> 0 <= pos s0 ->
+  (pos s = zlen left -> pos s0 = 0 /\ input s0 = left ++ skipn (length left) (input s0)) ->
+  ((left = [45%N; 45%N] /\ right = NL) \/ (left = [47%N; 42%N] /\ right = [42%N; 47%N])
+     \/ (HashComments o = true /\ left = [35%N] /\ right = NL)) ->
+  CmStep s0 s1.
+Proof.
+  intros H A C0 Hp Hleft Hk. destruct A as (I1 & I2 & I3 & I4).
+  apply comment_casesC in H; [|lia]. destruct H as [[A1 C1]|(Hpos & body & sp & H1 & H2 & H3 & H4 & H5 & H6)].
+  - left. destruct A1 as (E & _). split; congruence.
+  - right. destruct (Hleft Hpos) as [Hp0 Hin]. rewrite Hpos, to_nat_zlen, I1 in H1.
+    assert (firstn (Z.to_nat (pos s)) (input s) = left) as Hfl.
+    { rewrite Hpos, to_nat_zlen, I1, Hin. apply firstn_app_l. }
+    split; [exact Hp0|]. split; [exact H5|].
+    exists ((left ++ body ++ right) ++ sp). split.
+    + rewrite Hin, H1, <- !app_assoc. reflexivity.
+    + rewrite H6, Hfl, C0. apply SC_comment; auto.
+Qed.
+
+Lemma delim_stripC f s0 s s1 hd :
+  delimCmd o f (addPos s (zlen S_DELIMITER - 1)) = Ok s1 -> adv s0 s -> comments s = comments s0 ->
+  pos s0 = 0 -> pos s = 1 -> starts_space (input s0) = false ->
+  slice_to (input s) (zlen S_DELIMITER) = Ok hd -> has_prefix_ci hd W_DELIMITER = true -> length hd = 9%nat ->
+  CmStep s0 (skipSpaces s1).
+Proof.
+  intros H A C0 Hp0 Hp1 Hns Hhd Hci Hlen. destruct A as (I1 & I2 & I3 & I4).
+  change (zlen S_DELIMITER - 1) with 8 in H. change (zlen S_DELIMITER) with 9 in Hhd.
+  pose proof (delimCmd_cm _ _ _ _ H) as Hcm.
+  apply delimCmd_cases in H; [|simpl; lia].
+  destruct H as [H|(arg & nl & d0 & H1 & H2 & H3 & H4 & H5 & H6 & H7 & H8 & H9)].
+  - left. destruct Hcm as [->|[_ Hz]]; [|destruct H as (_ & _ & _ & Hm); simpl in Hm; lia].
+    unfold skipSpaces; simpl. rewrite I1, (trim_left_id _ Hns). split; [reflexivity|exact C0].
+  - right. destruct Hcm as [->|[Hc0 _]]; [simpl in H8; lia|].
+    simpl in H1. rewrite I1 in *.
+    apply slice_to_ok in Hhd as [_ Hhd]. change (Z.to_nat 9) with 9%nat in Hhd.
+    assert (input s0 = hd ++ arg ++ nl ++ input s1) as Hdec.
+    { rewrite <- H1, Hhd. symmetry; apply firstn_skipn. }
+    destruct (trim_left_decomp (input s1)) as (sp & Hsp & Hsp2 & Hsp3).
+    split; [exact Hp0|]. split; [unfold skipSpaces; simpl; exact H8|].
+    exists (hd ++ arg ++ nl ++ sp). unfold skipSpaces; simpl. split.
+    + rewrite Hdec. rewrite Hsp at 1. rewrite <- !app_assoc. reflexivity.
+    + rewrite Hc0. apply SC_delim; auto.
+      destruct H4 as [H4|[H4 H4']]; [left; exact H4|right; split; [exact H4|]].
+      rewrite <- Hsp. exact H4'.
+Qed.
+End StripC.
+
+Section IterCm.
+Variable o : opts.
+Variable nested : scanner -> res (scanner * option Stmt).
+
+Lemma atomic_loop_cm f : forall s body r, atomic_loop nested f s body = Ok r -> comments (fst r) = comments s.
+Proof.
+  induction f as [|f IH]; intros s body r H; simpl in H; [discriminate|].
+  destruct (nested body) as [[body' [st|]]|e| |]; try discriminate.
+  - destruct (re_end (Text st)); [inversion H; subst; reflexivity|eapply IH; exact H].
+  - apply nfail_ok in H. rewrite H. reflexivity.
+  - apply nfail_ok in H. rewrite H. reflexivity.
+Qed.
+Lemma begin_loop_cm f : forall s body r, begin_loop o nested f s body = Ok r -> comments (fst r) = comments s.
+Proof.
+  induction f as [|f IH]; intros s body r H; simpl in H; [discriminate|].
+  destruct (nested body) as [[body' [st|]]|e| |]; try discriminate.
+  - destruct (re_end (Text st)).
+    + destruct (_ || _); [inversion H; subst; reflexivity|eapply IH; exact H].
+    + destruct (_ && _); [inversion H; subst; reflexivity|eapply IH; exact H].
+  - apply nfail_ok in H. rewrite H. reflexivity.
+  - apply nfail_ok in H. rewrite H. reflexivity.
+Qed.
+Lemma trycatch_loop_cm f : forall s body r, trycatch_loop nested f s body = Ok r -> comments (fst r) = comments s.
+Proof.
+  induction f as [|f IH]; intros s body r H; simpl in H; [discriminate|].
+  destruct (nested body) as [[body' [st|]]|e| |]; try discriminate.
+  - destruct (re_end_catch (Text st)) as [n|]; [|eapply IH; exact H].
+    inversion H; subst. simpl. destruct (has_suffix _ _); reflexivity.
+  - apply nfail_ok in H. rewrite H. reflexivity.
+  - apply nfail_ok in H. rewrite H. reflexivity.
+Qed.
+Lemma skipBeginAtomic_cm f s r : skipBeginAtomic nested f s = Ok r -> comments (fst r) = comments s.
+Proof.
+  unfold skipBeginAtomic. intros H. inv_bind H.
+  destruct (re_begin_atomic a) as [n|]; [|apply nfail_ok in H; rewrite H; reflexivity].
+  inv_bind H. destruct (init (new_scanner false) a0) as [body|e| |]; try discriminate.
+  - apply atomic_loop_cm in H. exact H.
+  - inversion H; subst; reflexivity.
+Qed.
+Lemma skipBeginTryCatch_cm f s r : skipBeginTryCatch nested f s = Ok r -> comments (fst r) = comments s.
+Proof.
+  unfold skipBeginTryCatch. intros H. inv_bind H.
+  destruct (re_begin_try a) as [n|]; [|apply nfail_ok in H; rewrite H; reflexivity].
+  inv_bind H. destruct (init (new_scanner false) a0) as [body|e| |]; try discriminate.
+  - apply trycatch_loop_cm in H. exact H.
+  - inversion H; subst; reflexivity.
+Qed.
+Lemma skipBegin_cm f s r : skipBegin o nested f s = Ok r -> comments (fst r) = comments s.
+Proof.
+  unfold skipBegin. intros H. inv_bind H.
+  destruct (re_begin a) as [n|]; [|apply nfail_ok in H; rewrite H; reflexivity].
+  inv_bind H. destruct (init (new_scanner (BeginEndTerminator o)) a0) as [body|e| |]; try discriminate.
+  - apply begin_loop_cm in H. exact H.
+  - inversion H; subst; reflexivity.
+Qed.
+Lemma after_block_cm r depth opos step s0 :
+  after_block r depth opos = Ok step -> (forall x, r = Ok x -> comments (fst x) = comments s0) ->
+  match step with
+  | Continue s1 _ _ => comments s1 = comments s0
+  | Break s1 _ => comments s1 = comments s0
+  | RetEOF _ => False
+  end.
+Proof.
+  unfold after_block. intros H Hr. inv_bind H. destruct a as [s1 [e|]].
+  - inversion H; subst. apply (Hr _ eq_refl).
+  - inv_bind H. inversion H; subst. apply (Hr _ eq_refl).
+Qed.
+End IterCm.
+
 (** * One iteration of [stmt]'s loop *)
 Section IterSpec.
 Variable o : opts.
@@ -716,7 +1053,6 @@ Variable nested : scanner -> res (scanner * option Stmt).
 Hypothesis nested_mono : forall b b' r, pos b = 0 -> delim b <> [] -> nested b = Ok (b', r) ->
   total b <= total b' /\ pos b' = 0 /\ delim b' <> [] /\
   (forall st, r = Some st -> total b + zlen (Text st) <= total b').
-Hypothesis noGo : GoCommand o = false.
 
 (** a leading gap segment was cut off the input (continuation-passing form: any gap that
     follows extends to a gap from the old state). *)
@@ -800,7 +1136,8 @@ Lemma stmt_iter_spec f s0 depth opos step :
   | Continue s1 _ _ => (adv s0 s1 /\ pos s0 < pos s1) \/
                        (Strip s0 s1 /\ pos s0 = 0 /\ zlen (input s1) < zlen (input s0))
   | Break s1 text => adv s0 s1 /\ 0 < pos s1 /\
-      (text = firstn (Z.to_nat (pos s1)) (input s1) \/ (text = input s1 /\ zlen (input s1) <= pos s1))
+      (text = firstn (Z.to_nat (pos s1)) (input s1) \/ (text = input s1 /\ zlen (input s1) <= pos s1) \/
+       (GoCommand o = true /\ exists k, 0 <= k <= pos s1 /\ text = firstn (Z.to_nat k) (input s1)))
   | RetEOF s1 => adv s0 s1 /\ zlen (input s1) <= pos s1 <= 0
   end.
 Proof.
@@ -809,7 +1146,7 @@ Proof.
   2:{ apply next_none in Ha as [-> Hlen].
       destruct (0 <? depth); [apply fail_not_ok in H; contradiction|].
       destruct (0 <? pos s0) eqn:E; bnorm; inversion H; subst.
-      - split; [apply adv_refl|split; [lia|right; auto]].
+      - split; [apply adv_refl|split; [lia|right; left; auto]].
       - split; [apply adv_refl|lia]. }
   apply next_some in Ha as (rest & w & H1 & H2 & H3 & Hs & H4).
   destruct (decode_rune_spec _ _ _ H3 H2) as (Hw & Hascii & _).
@@ -832,7 +1169,26 @@ Proof.
     inv_bind Ha. injection Ha as Ha. bnorm.
     match goal with HH : (length _ =? 9)%nat = true |- _ => apply Nat.eqb_eq in HH end.
     eapply delim_strip; eauto. lia. }
-  clear Ha. rewrite noGo in H. simpl in H.
+  clear Ha. inv_bind_as H go1 Hgo1. inv_bind_as H go2 Hgo2. destruct go2.
+  { assert (GoCommand o = true) as HG.
+    { destruct (GoCommand o); [reflexivity|]. simpl in Hgo1. injection Hgo1 as <-. simpl in Hgo2. discriminate. }
+    inv_bind_as H s1 Hs1. inv_bind_as H text Ht. inv_bind_as H rs2 Hrs2. inv_bind_as H s3 Hs3. injection H as <-.
+    assert (adv s s1) as A1.
+    { destruct go1; [|injection Hs1 as <-; apply adv_refl].
+      inv_bind_as Hs1 rs1 Hrs1. injection Hs1 as <-. destruct rs1 as [r1 s1']. simpl. eapply next_adv; exact Hrs1. }
+    destruct rs2 as [r2 s2]. simpl in Hs3. pose proof (next_adv _ _ _ Hrs2) as A2.
+    pose proof (skipGoCount_adv _ _ _ Hs3) as A3.
+    assert (adv s s3) as A13 by (eapply adv_trans; [exact A1|eapply adv_trans; eauto]).
+    assert (adv s3 (skipSpaces s3)) as A4.
+    { apply skipSpaces_adv. destruct A13 as (E & _). rewrite E, His. exact Hns. }
+    apply slice_to_ok in Ht as [Hb ->].
+    destruct A1 as (a11 & a12 & a13 & a14). destruct A2 as (a21 & a22 & a23 & a24).
+    destruct A3 as (a31 & a32 & a33 & a34). destruct A4 as (a41 & a42 & a43 & a44).
+    destruct A0 as (a01 & a02 & a03 & a04).
+    split; [unfold adv; repeat split; try congruence; lia|]. split; [lia|].
+    right; right. split; [exact HG|]. exists (pos s1 - 1). split; [lia|].
+    f_equal. congruence. }
+  clear Hgo1 Hgo2 go1.
   inv_bind H. rename a into isDelim. destruct isDelim.
   { inv_bind H. inversion H; subst; clear H. apply slice_to_ok in Ha0 as [Hb ->].
     assert (1 <= zlen (delim s0)) as Hdl.
@@ -912,30 +1268,165 @@ Proof.
 Qed.
 End IterSpec.
 
+(** the comment group over one iteration of [stmt]'s loop *)
+Section IterCmSpec.
+Variable o : opts.
+Variable nested : scanner -> res (scanner * option Stmt).
+Hypothesis nested_mono : forall b b' r, pos b = 0 -> delim b <> [] -> nested b = Ok (b', r) ->
+  total b <= total b' /\ pos b' = 0 /\ delim b' <> [] /\
+  (forall st, r = Some st -> total b + zlen (Text st) <= total b').
+
+Lemma stmt_iter_cm f s0 depth opos step :
+  stmt_iter o nested f s0 depth opos = Ok step -> starts_space (input s0) = false ->
+  match step with
+  | Continue s1 _ _ => CmStep o s0 s1
+  | Break s1 _ => input s1 = input s0 /\ comments s1 = comments s0
+  | RetEOF s1 => input s1 = input s0 /\ comments s1 = comments s0
+  end.
+Proof.
+  unfold stmt_iter. intros H Hns. inv_bind H. destruct a as [r s]. pose proof (next_adv _ _ _ Ha) as A0.
+  pose proof (next_cm _ _ _ Ha) as C0. pose proof A0 as (I0 & _).
+  destruct r as [c|].
+  2:{ destruct (0 <? depth); [apply fail_not_ok in H; contradiction|].
+      destruct (0 <? pos s); inversion H; subst; split; assumption. }
+  apply next_some in Ha as (rest & w & H1 & H2 & H3 & Hs & H4).
+  destruct (decode_rune_spec _ _ _ H3 H2) as (Hw & Hascii & _).
+  assert (pos s = pos s0 + w) as Hps by (subst s; reflexivity).
+  assert (input s = input s0) as His by (subst s; reflexivity).
+  apply slice_from_ok in H1 as [_ Hrest].
+  clear Hs.
+  assert (forall s1, adv s s1 -> comments s1 = comments s -> CmStep o s0 s1) as Hk.
+  { intros s1 (E & _) Ec. left. split; congruence. }
+  assert (forall s1, adv s s1 -> comments s1 = comments s ->
+                     input s1 = input s0 /\ comments s1 = comments s0) as Hk2.
+  { intros s1 (E & _) Ec. split; congruence. }
+  destruct (N.eqb c 40). { inversion H; subst. apply Hk; [apply adv_refl|reflexivity]. }
+  destruct (N.eqb c 41).
+  { destruct (depth =? 0); [apply fail_not_ok in H; contradiction|inversion H; subst; apply Hk; [apply adv_refl|reflexivity]]. }
+  destruct (N.eqb c 39 || N.eqb c 34 || N.eqb c 96).
+  { inv_bind H. inversion H; subst. apply Hk; [eapply skipQuote_adv; eauto|eapply skipQuote_cm; eauto]. }
+  inv_bind H. rename a into isDelimCmd. destruct isDelimCmd.
+  { inv_bind H. inversion H; subst; clear H.
+    destruct ((pos s =? 1) && (zlen S_DELIMITER <? zlen (input s))) eqn:E; [|discriminate]. bnorm.
+    inv_bind Ha. injection Ha as Ha. bnorm.
+    match goal with HH : (length _ =? 9)%nat = true |- _ => apply Nat.eqb_eq in HH end.
+    eapply delim_stripC; eauto. lia. }
+  clear Ha. inv_bind_as H go1 Hgo1. inv_bind_as H go2 Hgo2. destruct go2.
+  { inv_bind_as H s1 Hs1. inv_bind_as H text Ht. inv_bind_as H rs2 Hrs2. inv_bind_as H s3 Hs3. injection H as <-.
+    assert (adv s s1 /\ comments s1 = comments s) as [A1 C1].
+    { destruct go1; [|injection Hs1 as <-; split; [apply adv_refl|reflexivity]].
+      inv_bind_as Hs1 rs1 Hrs1. injection Hs1 as <-. destruct rs1 as [r1 s1']. simpl.
+      split; [eapply next_adv; exact Hrs1|eapply next_cm; exact Hrs1]. }
+    destruct rs2 as [r2 s2]. simpl in Hs3.
+    pose proof (next_adv _ _ _ Hrs2) as A2. pose proof (next_cm _ _ _ Hrs2) as C2.
+    pose proof (skipGoCount_adv _ _ _ Hs3) as A3. pose proof (skipGoCount_cm _ _ _ Hs3) as C3.
+    destruct A1 as (a1 & _). destruct A2 as (a2 & _). destruct A3 as (a3 & _).
+    assert (input s3 = input s0) as Ei by congruence.
+    unfold skipSpaces; simpl. rewrite Ei, (trim_left_id _ Hns). split; [reflexivity|congruence]. }
+  clear Hgo1 Hgo2 go1.
+  inv_bind H. rename a into isDelim. destruct isDelim.
+  { inv_bind H. inversion H; subst; clear H. simpl. split; [exact His|exact C0]. }
+  clear Ha. inv_bind H. rename a into isDollar. destruct isDollar.
+  { inv_bind H. inversion H; subst. apply Hk; [eapply skipDollarQuote_adv; eauto|eapply skipDollarQuote_cm; eauto]. }
+  clear Ha.
+  destruct (N.eqb c 35 && HashComments o) eqn:Ehash.
+  { inv_bind H. injection H as <-. bnorm. subst c.
+    eapply comment_stripC; [exact Ha|exact A0|exact C0|lia| |right; right; auto].
+    intros Hp. change (zlen [35%N]) with 1 in Hp. destruct (Hascii ltac:(lia)) as [Hw1 [t Ht]].
+    assert (pos s0 = 0) as Hp0 by lia. split; [exact Hp0|]. rewrite Hp0 in Hrest. rewrite Hrest in Ht.
+    apply one_byte in Ht. exact Ht. }
+  clear Ehash.
+  inv_bind H. rename a into p1.
+  destruct (N.eqb c 45 && rune_is p1 45) eqn:Edash.
+  { bnorm. subst c. rewrite N.eqb_refl in Ha.
+    inv_bind H. destruct a as [r1 s2]. inv_bind H. injection H as <-. simpl in Ha1.
+    unfold pick in Ha. rewrite Ha0 in Ha. simpl in Ha. injection Ha as <-.
+    destruct r1 as [c1|]; [|match goal with HH : rune_is None _ = true |- _ => discriminate HH end].
+    match goal with HH : rune_is (Some _) _ = true |- _ => simpl in HH; apply N.eqb_eq in HH; subst c1 end.
+    pose proof (next_adv _ _ _ Ha0) as A1. pose proof (next_cm _ _ _ Ha0) as C1.
+    apply next_some in Ha0 as (rest1 & w1 & G1 & G2 & G3 & Gs & G4).
+    destruct (decode_rune_spec _ _ _ G3 G2) as (_ & Gascii & _).
+    destruct (Hascii ltac:(lia)) as [Hw1 [t Ht]]. destruct (Gascii ltac:(lia)) as [Hw2 [t1 Ht1]].
+    apply slice_from_ok in G1 as [_ G1].
+    eapply comment_stripC; [exact Ha1|eapply adv_trans; eauto|congruence|lia| |left; auto].
+    intros Hp. change (zlen [45%N; 45%N]) with 2 in Hp. rewrite Gs in Hp. simpl in Hp.
+    assert (pos s0 = 0) as Hp0 by lia. split; [exact Hp0|].
+    rewrite Hp0 in Hrest. rewrite Hps, Hp0, His, Hw1 in G1. change (Z.to_nat (0 + 1)) with 1%nat in G1.
+    change (Z.to_nat 0) with 0%nat in Hrest. rewrite Hrest in Ht. rewrite G1 in Ht1.
+    eapply two_bytes; eauto. }
+  clear Edash Ha p1.
+  inv_bind H. rename a into p2.
+  destruct (N.eqb c 47 && rune_is p2 42) eqn:Eslash.
+  { bnorm. subst c. rewrite N.eqb_refl in Ha.
+    inv_bind H. destruct a as [r1 s2]. inv_bind H. injection H as <-. simpl in Ha1.
+    unfold pick in Ha. rewrite Ha0 in Ha. simpl in Ha. injection Ha as <-.
+    destruct r1 as [c1|]; [|match goal with HH : rune_is None _ = true |- _ => discriminate HH end].
+    match goal with HH : rune_is (Some _) _ = true |- _ => simpl in HH; apply N.eqb_eq in HH; subst c1 end.
+    pose proof (next_adv _ _ _ Ha0) as A1. pose proof (next_cm _ _ _ Ha0) as C1.
+    apply next_some in Ha0 as (rest1 & w1 & G1 & G2 & G3 & Gs & G4).
+    destruct (decode_rune_spec _ _ _ G3 G2) as (_ & Gascii & _).
+    destruct (Hascii ltac:(lia)) as [Hw1 [t Ht]]. destruct (Gascii ltac:(lia)) as [Hw2 [t1 Ht1]].
+    apply slice_from_ok in G1 as [_ G1].
+    eapply comment_stripC; [exact Ha1|eapply adv_trans; eauto|congruence|lia| |right; left; auto].
+    intros Hp. change (zlen [47%N; 42%N]) with 2 in Hp. rewrite Gs in Hp. simpl in Hp.
+    assert (pos s0 = 0) as Hp0 by lia. split; [exact Hp0|].
+    rewrite Hp0 in Hrest. rewrite Hps, Hp0, His, Hw1 in G1. change (Z.to_nat (0 + 1)) with 1%nat in G1.
+    change (Z.to_nat 0) with 0%nat in Hrest. rewrite Hrest in Ht. rewrite G1 in Ht1.
+    eapply two_bytes; eauto. }
+  clear Eslash Ha p2.
+  inv_bind H. rename a into isEndTerm. destruct isEndTerm.
+  { inv_bind H. inversion H; subst; clear H. split; [exact His|exact C0]. }
+  clear Ha.
+  inv_bind H. rename a into isAtomic. destruct isAtomic.
+  { pose proof H as H'.
+    apply after_block_spec with (s0 := s) in H; [|intros x Hx; eapply skipBeginAtomic_adv; eauto].
+    apply after_block_cm with (s0 := s) in H'; [|intros x Hx; eapply skipBeginAtomic_cm; eauto].
+    destruct step as [s1 d1 o1|s1 text|s1]; [apply Hk; assumption|destruct H as [A1 _]; apply Hk2; assumption|contradiction]. }
+  clear Ha.
+  inv_bind H. rename a into isTry. destruct isTry.
+  { pose proof H as H'.
+    apply after_block_spec with (s0 := s) in H; [|intros x Hx; eapply skipBeginTryCatch_adv; eauto].
+    apply after_block_cm with (s0 := s) in H'; [|intros x Hx; eapply skipBeginTryCatch_cm; eauto].
+    destruct step as [s1 d1 o1|s1 text|s1]; [apply Hk; assumption|destruct H as [A1 _]; apply Hk2; assumption|contradiction]. }
+  clear Ha.
+  inv_bind H. rename a into isBegin. destruct isBegin.
+  { pose proof H as H'.
+    apply after_block_spec with (s0 := s) in H; [|intros x Hx; eapply skipBegin_adv; eauto].
+    apply after_block_cm with (s0 := s) in H'; [|intros x Hx; eapply skipBegin_cm; eauto].
+    destruct step as [s1 d1 o1|s1 text|s1]; [apply Hk; assumption|destruct H as [A1 _]; apply Hk2; assumption|contradiction]. }
+  inversion H; subst. apply Hk; [apply adv_refl|reflexivity].
+Qed.
+End IterCmSpec.
+
 
 (** * The loop of [stmt], [stmt], [Scan] *)
 Lemma starts_space_trim_suffix t d : starts_space t = false -> starts_space (trim_suffix t d) = false.
 Proof. unfold trim_suffix. destruct (has_suffix t d); [apply starts_space_firstn|auto]. Qed.
 
-Lemma emit_spec o s1 text st s' :
-  emit o s1 text = Ok (st, s') -> text = firstn (Z.to_nat (pos s1)) (input s1) ->
+Lemma emit_spec o s1 text k st s' :
+  emit o s1 text = Ok (st, s') -> 0 <= k <= pos s1 -> text = firstn (Z.to_nat k) (input s1) ->
   starts_space (input s1) = false ->
-  input s1 = text ++ input s' /\ RawOf (delim s1) text st /\ Pos st = total s1 - zlen text /\
-  pos s' = 0 /\ delim s' = delim s1 /\ total s' = total s1 /\ zlen text = pos s1.
+  exists go, input s1 = text ++ go ++ input s' /\ RawOf (delim s1) text st /\ Pos st = total s1 - zlen text /\
+  pos s' = 0 /\ delim s' = delim s1 /\ total s' = total s1 /\ zlen text = k /\ zlen go = pos s1 - k /\
+  Comments st = comments s1 /\ comments s' = [].
 Proof.
-  unfold emit. intros H Ht Hns. inv_bind H. apply slice_from_ok in Ha as [Hb ->].
+  unfold emit. intros H Hk Ht Hns. inv_bind H. apply slice_from_ok in Ha as [Hb ->].
   injection H as <- <-. simpl.
   assert (starts_space text = false) as Hns2 by (rewrite Ht; apply starts_space_firstn; exact Hns).
-  repeat split; auto.
-  - rewrite Ht. symmetry; apply firstn_skipn.
-  - set (t := if OmitDelimiter o || negb (bytes_eqb (delim s1) delimiter) then trim_suffix text (delim s1) else text).
+  exists (skipn (Z.to_nat k) (firstn (Z.to_nat (pos s1)) (input s1))).
+  split; [rewrite Ht; apply split3; lia|].
+  split.
+  { set (t := if OmitDelimiter o || negb (bytes_eqb (delim s1) delimiter) then trim_suffix text (delim s1) else text).
     assert (exists dl, text = t ++ dl /\ (dl = [] \/ dl = delim s1)) as (dl & Hdl & Hdl2).
     { unfold t. destruct (_ || _); [apply trim_suffix_app|exists []; rewrite app_nil_r; auto]. }
     assert (starts_space t = false) as Hns3.
     { unfold t. destruct (_ || _); [apply starts_space_trim_suffix|]; exact Hns2. }
     destruct (trim_space_decomp _ Hns3) as (sp & Hsp & Hsp2).
-    exists sp, dl. simpl. split; [|auto]. rewrite Hdl at 1. rewrite Hsp at 1. rewrite <- app_assoc. reflexivity.
-  - rewrite Ht. apply zlen_firstn. lia.
+    exists sp, dl. simpl. split; [|auto]. rewrite Hdl at 1. rewrite Hsp at 1. rewrite <- app_assoc. reflexivity. }
+  split; [reflexivity|]. split; [reflexivity|]. split; [reflexivity|]. split; [reflexivity|].
+  split; [rewrite Ht; apply zlen_firstn; lia|].
+  split; [unfold zlen in *; rewrite skipn_length, firstn_length; lia|].
+  split; reflexivity.
 Qed.
 
 Section LoopSpec.
@@ -944,57 +1435,76 @@ Variable nested : scanner -> res (scanner * option Stmt).
 Hypothesis nested_mono : forall b b' r, pos b = 0 -> delim b <> [] -> nested b = Ok (b', r) ->
   total b <= total b' /\ pos b' = 0 /\ delim b' <> [] /\
   (forall st, r = Some st -> total b + zlen (Text st) <= total b').
-Hypothesis noGo : GoCommand o = false.
-Variables (I0 D0 : bytes) (T0 : Z).
+Variables (I0 D0 : bytes) (T0 : Z) (C0 : list bytes).
 
 Definition LI (s : scanner) : Prop :=
   starts_space (input s) = false /\ delim s <> [] /\ 0 <= pos s /\
   total s - pos s + zlen (input s) = T0 /\
-  (forall g tl d', input s = g ++ tl -> Gap o (delim s) g d' -> exists g0, I0 = g0 ++ tl /\ Gap o D0 g0 d').
+  (forall g tl d', input s = g ++ tl -> Gap o (delim s) g d' -> exists g0, I0 = g0 ++ tl /\ Gap o D0 g0 d') /\
+  (exists gc, I0 = gc ++ input s /\ GapCs o gc (input s) C0 (comments s)).
 
 Definition StmtResult (s' : scanner) (r : option Stmt) : Prop :=
   pos s' = 0 /\ delim s' <> [] /\ total s' + zlen (input s') = T0 /\
   match r with
   | None => input s' = [] /\ Gap o D0 I0 (delim s')
-  | Some st => exists g raw, I0 = g ++ raw ++ input s' /\ Gap o D0 g (delim s') /\
-                             RawOf (delim s') raw st /\ raw <> [] /\ Pos st = T0 - zlen I0 + zlen g
+  | Some st => exists g raw go, I0 = g ++ raw ++ go ++ input s' /\ Gap o D0 g (delim s') /\
+                             RawOf (delim s') raw st /\ raw ++ go <> [] /\
+                             Pos st = T0 - zlen I0 + zlen g + zlen go /\ (go = [] \/ GoCommand o = true) /\
+                             GapCs o g (raw ++ go ++ input s') C0 (Comments st) /\ comments s' = []
   end.
 
-Lemma LI_adv s s1 : LI s -> adv s s1 -> LI s1.
+Lemma LI_adv s s1 : LI s -> adv s s1 -> comments s1 = comments s -> LI s1.
 Proof.
-  intros (L1 & L2 & L3 & L4 & L5) (A1 & A2 & A3 & A4). unfold LI. rewrite A1, A2.
-  repeat split; auto; lia.
+  intros (L1 & L2 & L3 & L4 & L5 & L6) (A1 & A2 & A3 & A4) AC. unfold LI. rewrite A1, A2, AC.
+  split; [exact L1|]. split; [exact L2|]. split; [lia|]. split; [lia|]. split; [exact L5|exact L6].
 Qed.
-Lemma LI_strip s s1 : LI s -> Strip o s s1 -> LI s1.
+Lemma LI_strip s s1 : LI s -> Strip o s s1 ->
+  (exists seg, input s = seg ++ input s1 /\ SegC o seg (input s1) (comments s) (comments s1)) -> LI s1.
 Proof.
-  intros (L1 & L2 & L3 & L4 & L5) (S1 & S2 & S3 & S4 & S5). unfold LI.
-  repeat split; auto; try lia.
-  intros g tl d' Hg HG. destruct (S5 _ _ _ Hg HG) as (g1 & Hg1 & HG1). eapply L5; eauto.
+  intros (L1 & L2 & L3 & L4 & L5 & (gc & L6 & L7)) (S1 & S2 & S3 & S4 & S5) (seg & Hseg & HC). unfold LI.
+  split; [exact S1|]. split; [exact S2|]. split; [lia|]. split; [lia|]. split.
+  - intros g tl d' Hg HG. destruct (S5 _ _ _ Hg HG) as (g1 & Hg1 & HG1). eapply L5; eauto.
+  - exists (gc ++ seg). split; [rewrite L6, Hseg, app_assoc; reflexivity|].
+    eapply GapCs_snoc; [|exact HC]. rewrite <- Hseg. exact L7.
 Qed.
 
 Lemma stmt_loop_spec lf : forall s d op s' r,
   stmt_loop o nested lf s d op = Ok (s', r) -> LI s -> StmtResult s' r.
 Proof.
   induction lf as [|lf IH]; intros s d op s' r H L; simpl in H; [discriminate|].
-  inv_bind H. destruct L as (L1 & L2 & L3 & L4 & L5).
-  pose proof (stmt_iter_spec o nested nested_mono noGo _ _ _ _ _ Ha L1 L2) as Hit.
-  assert (LI s) as L by (unfold LI; auto).
+  inv_bind H. pose proof L as (L1 & L2 & L3 & L4 & L5 & L6).
+  pose proof (stmt_iter_spec o nested nested_mono _ _ _ _ _ Ha L1 L2) as Hit.
+  pose proof (stmt_iter_cm o nested nested_mono _ _ _ _ _ Ha L1) as Hcm.
   destruct a as [s1 d1 o1|s1 text|s1].
-  - eapply IH; [exact H|]. destruct Hit as [[A _]|[S _]]; [eapply LI_adv|eapply LI_strip]; eauto.
+  - eapply IH; [exact H|]. destruct Hit as [[A Hlt]|[S [Hp0 Hlen]]].
+    + destruct Hcm as [[Ei Ec]|(_ & Hp1 & _)]; [eapply LI_adv; eauto|lia].
+    + destruct Hcm as [[Ei Ec]|(_ & _ & HC)]; [rewrite Ei in Hlen; lia|eapply LI_strip; eauto].
   - destruct Hit as (A & Hpos & Htext). inv_bind H. destruct a as [st s2]. simpl in H. injection H as <- <-.
-    pose proof (LI_adv _ _ L A) as (M1 & M2 & M3 & M4 & M5).
-    assert (text = firstn (Z.to_nat (pos s1)) (input s1)) as Ht.
-    { destruct Htext as [Ht|[Ht Hlen]]; [exact Ht|]. rewrite Ht. symmetry. apply firstn_all2.
-      unfold zlen in Hlen. lia. }
-    destruct (emit_spec _ _ _ _ _ Ha0 Ht M1) as (E1 & E2 & E3 & E4 & E5 & E6 & E7).
+    destruct Hcm as [_ Ec].
+    pose proof (LI_adv _ _ L A Ec) as (M1 & M2 & M3 & M4 & M5 & (gc & M6 & M7)).
+    assert (exists k, 0 <= k <= pos s1 /\ text = firstn (Z.to_nat k) (input s1) /\
+                      (k = pos s1 \/ GoCommand o = true)) as (k & Hk & Ht & Hgo).
+    { destruct Htext as [Ht|[[Ht Hlen]|(HG & k & Hk & Ht)]].
+      - exists (pos s1). split; [lia|]. split; [exact Ht|left; reflexivity].
+      - exists (pos s1). split; [lia|]. split; [|left; reflexivity]. rewrite Ht. symmetry. apply firstn_all2.
+        unfold zlen in Hlen. lia.
+      - exists k. auto. }
+    destruct (emit_spec _ _ _ _ _ _ Ha0 Hk Ht M1) as (go & E1 & E2 & E3 & E4 & E5 & E6 & E7 & E8 & E9 & E10).
     destruct (M5 [] (input s1) (delim s1) eq_refl (Gap_nil o _)) as (g0 & Hg0 & HG0).
-    unfold StmtResult. rewrite E5. repeat split; auto.
-    + rewrite E1, zlen_app in M4. lia.
-    + exists g0, text. rewrite <- E1. repeat split; auto.
-      * intros ->. change (zlen []) with 0 in E7. lia.
-      * rewrite Hg0, zlen_app. lia.
-  - destruct Hit as (A & Hlen). injection H as <- <-.
-    pose proof (LI_adv _ _ L A) as (M1 & M2 & M3 & M4 & M5).
+    assert (gc = g0) as -> by (rewrite M6 in Hg0; apply app_inv_tail in Hg0; exact Hg0).
+    pose proof (zlen_nonneg go) as Hgo0.
+    assert (zlen (input s1) = zlen text + zlen go + zlen (input s2)) as Hlen1.
+    { rewrite E1 at 1. rewrite !zlen_app. lia. }
+    unfold StmtResult. rewrite E5. split; [exact E4|]. split; [exact M2|]. split; [lia|].
+    exists g0, text, go. rewrite <- E1. split; [exact Hg0|]. split; [exact HG0|]. split; [exact E2|].
+    split; [|split; [|split; [|split]]].
+    + intros Hnil. apply (f_equal zlen) in Hnil. rewrite zlen_app in Hnil. change (zlen []) with 0 in Hnil. lia.
+    + rewrite Hg0, zlen_app. lia.
+    + destruct Hgo as [Hkp|HG]; [left; apply zlen_zero; lia|right; exact HG].
+    + rewrite E9. exact M7.
+    + exact E10.
+  - destruct Hit as (A & Hlen). injection H as <- <-. destruct Hcm as [_ Ec].
+    pose proof (LI_adv _ _ L A Ec) as (M1 & M2 & M3 & M4 & M5 & _).
     assert (input s1 = []) as Hin by (apply zlen_zero; pose proof (zlen_nonneg (input s1)); lia).
     destruct (M5 [] [] (delim s1) ltac:(rewrite Hin; reflexivity) (Gap_nil o _)) as (g0 & Hg0 & HG0).
     rewrite app_nil_r in Hg0. subst g0.
@@ -1004,16 +1514,15 @@ End LoopSpec.
 
 Section StmtSpec.
 Variable o : opts.
-Hypothesis noGo : GoCommand o = false.
 
-Lemma StmtResult_mono I0 D0 T0 s' r b :
-  StmtResult o I0 D0 T0 s' r -> I0 = input b -> T0 = total b + zlen (input b) ->
+Lemma StmtResult_mono I0 D0 T0 C0 s' r b :
+  StmtResult o I0 D0 T0 C0 s' r -> I0 = input b -> T0 = total b + zlen (input b) ->
   total b <= total s' /\ pos s' = 0 /\ delim s' <> [] /\
   (forall st, r = Some st -> total b + zlen (Text st) <= total s').
 Proof.
   intros (R1 & R2 & R3 & R4) -> ->. destruct r as [st|].
-  - destruct R4 as (g & raw & Hin & _ & (sp & dl & Hraw & _) & _). rewrite Hin, !zlen_app in R3.
-    rewrite Hraw, !zlen_app in R3.
+  - destruct R4 as (g & raw & go & Hin & _ & (sp & dl & Hraw & _) & _). rewrite Hin, !zlen_app in R3.
+    rewrite Hraw, !zlen_app in R3. pose proof (zlen_nonneg go).
     pose proof (zlen_nonneg g). pose proof (zlen_nonneg sp). pose proof (zlen_nonneg dl). pose proof (zlen_nonneg (Text st)).
     repeat split; auto; try lia. intros st0 E. injection E as <-. lia.
   - destruct R4 as [Hin _]. rewrite Hin in R3. change (zlen []) with 0 in R3.
@@ -1021,33 +1530,36 @@ Proof.
 Qed.
 
 Lemma stmt_spec f : forall s s' r, stmt o f s = Ok (s', r) -> pos s = 0 -> delim s <> [] ->
-  StmtResult o (input s) (delim s) (total s + zlen (input s)) s' r.
+  StmtResult o (input s) (delim s) (total s + zlen (input s)) (comments s) s' r.
 Proof.
   induction f as [|f IH]; intros s s' r H Hp Hd; simpl in H; [discriminate|].
-  eapply (stmt_loop_spec o (stmt o f)); [|exact noGo|exact H|].
+  eapply (stmt_loop_spec o (stmt o f)); [|exact H|].
   - intros b b' r0 Hb1 Hb2 Hb3. eapply StmtResult_mono; [eapply IH; eauto|reflexivity|reflexivity].
   - destruct (trim_left_decomp (input s)) as (sp & Hsp & Hsp2 & Hsp3).
-    unfold LI, skipSpaces; simpl. repeat split; auto; try lia.
-    intros g tl d' Hg HG. exists (sp ++ g). split.
-    + rewrite Hsp at 1. rewrite Hg, app_assoc. reflexivity.
-    + apply Gap_space; auto.
+    unfold LI, skipSpaces; simpl. split; [exact Hsp3|]. split; [exact Hd|]. split; [lia|]. split; [lia|]. split.
+    + intros g tl d' Hg HG. exists (sp ++ g). split.
+      * rewrite Hsp at 1. rewrite Hg, app_assoc. reflexivity.
+      * apply Gap_space; auto.
+    + exists sp. split; [exact Hsp|].
+      change sp with ([] ++ sp). eapply GapCs_snoc; [apply GCs_nil|apply SC_space; exact Hsp2].
 Qed.
 
 Lemma scan_loop_spec f : forall s acc ss, scan_loop o f s acc = Ok ss -> pos s = 0 -> delim s <> [] ->
-  exists ss', ss = rev acc ++ ss' /\ Lossless o (delim s) (total s) (input s) ss'.
+  comments s = [] ->
+  exists ss', ss = rev acc ++ ss' /\ LosslessG o (delim s) (total s) (input s) ss'.
 Proof.
-  induction f as [|f IH]; intros s acc ss H Hp Hd; [discriminate|].
+  induction f as [|f IH]; intros s acc ss H Hp Hd Hcs; [discriminate|].
   cbn [scan_loop] in H. inv_bind H. destruct a as [s1 r].
-  pose proof (stmt_spec _ _ _ _ Ha Hp Hd) as (R1 & R2 & R3 & R4).
+  pose proof (stmt_spec _ _ _ _ Ha Hp Hd) as (R1 & R2 & R3 & R4). rewrite Hcs in R4.
   destruct r as [st|].
-  - destruct R4 as (g & raw & Hin & HG & HR & Hne & HP).
-    destruct (IH _ _ _ H R1 R2) as (ss' & Hss & HL).
+  - destruct R4 as (g & raw & go & Hin & HG & HR & Hne & HP & Hgo & HC & Hcs1).
+    destruct (IH _ _ _ H R1 R2 Hcs1) as (ss' & Hss & HL).
     exists (st :: ss'). split; [rewrite Hss; simpl; rewrite <- app_assoc; reflexivity|].
-    rewrite Hin. eapply LL_stmt; eauto; [lia|].
-    replace (total s + zlen g + zlen raw) with (total s1); [exact HL|].
+    rewrite Hin. eapply LG_stmt; [exact HG|exact HR|exact Hne|exact Hgo|lia|exact HC|].
+    replace (total s + zlen g + zlen raw + zlen go) with (total s1); [exact HL|].
     rewrite Hin, !zlen_app in R3. lia.
   - destruct R4 as [Hin HG]. injection H as <-. exists []. rewrite app_nil_r. split; [reflexivity|].
-    eapply LL_end; exact HG.
+    eapply LG_end; exact HG.
 Qed.
 
 (** the [-- atlas:delimiter] header line stripped by [init] (dir.go [directive]). *)
@@ -1067,16 +1579,16 @@ Proof.
       apply (IH _ eq_refl Hin).
 Qed.
 
-Theorem Scan_lossless fuel inp ss :
+Theorem Scan_losslessG fuel inp ss :
   Scan o fuel inp = Ok ss ->
-  exists hdr d0 rest, inp = hdr ++ rest /\ Header inp hdr d0 /\ Lossless o d0 (zlen hdr) rest ss.
+  exists hdr d0 rest, inp = hdr ++ rest /\ Header inp hdr d0 /\ LosslessG o d0 (zlen hdr) rest ss.
 Proof.
   unfold Scan. intros H. inv_bind H. rename a into s. unfold init in Ha.
   destruct (directive_delimiter inp) as [dd|] eqn:Ed.
   - inv_bind Ha. apply setDelim_ok in Ha0 as [Hdd ->].
     destruct (index_of inp NL) as [i|] eqn:Ei; [|apply fail_not_ok in Ha; contradiction].
     injection Ha as <-.
-    destruct (scan_loop_spec _ _ _ _ H eq_refl ltac:(simpl; apply unescape_delim_nonnil; exact Hdd)) as (ss' & -> & HL).
+    destruct (scan_loop_spec _ _ _ _ H eq_refl ltac:(simpl; apply unescape_delim_nonnil; exact Hdd) eq_refl) as (ss' & -> & HL).
     simpl in HL. pose proof (index_of_app _ _ _ Ei) as Happ. pose proof (index_of_spec _ _ _ Ei) as [_ Hi].
     exists (firstn i inp ++ NL), (unescape_delim dd), (skipn (S i) inp).
     assert (skipn (i + length NL) inp = skipn (S i) inp) as Hsk by (f_equal; simpl; lia).
@@ -1085,8 +1597,16 @@ Proof.
     + replace (zlen (firstn i inp ++ NL)) with (zlen inp - zlen (skipn (S i) inp)); [exact HL|].
       rewrite Happ at 1. rewrite !zlen_app. lia.
   - injection Ha as <-.
-    destruct (scan_loop_spec _ _ _ _ H eq_refl ltac:(simpl; discriminate)) as (ss' & -> & HL).
+    destruct (scan_loop_spec _ _ _ _ H eq_refl ltac:(simpl; discriminate) eq_refl) as (ss' & -> & HL).
     exists [], delimiter, inp. split; [reflexivity|]. split; [left; auto|exact HL].
+Qed.
+
+Theorem Scan_lossless fuel inp ss :
+  GoCommand o = false -> Scan o fuel inp = Ok ss ->
+  exists hdr d0 rest, inp = hdr ++ rest /\ Header inp hdr d0 /\ Lossless o d0 (zlen hdr) rest ss.
+Proof.
+  intros noGo H. destruct (Scan_losslessG _ _ _ H) as (hdr & d0 & rest & H1 & H2 & H3).
+  exists hdr, d0, rest. split; [exact H1|]. split; [exact H2|]. apply LosslessG_noGo; assumption.
 Qed.
 End StmtSpec.
 
@@ -1165,6 +1685,73 @@ Proof.
   pose proof (zlen_nonneg (Text st)).
   unfold slice_to. destruct (Pos st <? 0) eqn:E1; [bnorm; lia|]. destruct (zlen inp <? Pos st) eqn:E2; [bnorm; lia|].
   simpl. unfold line_of. rewrite line_walk_count. reflexivity.
+Qed.
+
+(** ** the same for every option set (GoCommand included): the text is found [sh] bytes before
+    [Pos], where [sh] is the length of the GO separator consumed after the statement (0 without
+    the option); [Line(Pos)] never panics and is the line of the byte at [Pos]. *)
+Definition TextAtShift (inp : bytes) (sh : Z) (st : Stmt) : Prop :=
+  slice inp (Pos st - sh) (Pos st - sh + zlen (Text st)) = Ok (Text st).
+
+Lemma losslessG_positions o d off rest ss :
+  LosslessG o d off rest ss -> forall pre, zlen pre = off ->
+  Forall (fun st => exists sh, 0 <= sh /\ (GoCommand o = false -> sh = 0) /\
+                    TextAtShift (pre ++ rest) sh st /\ 0 <= Pos st <= zlen (pre ++ rest)) ss.
+Proof.
+  induction 1 as [d off g d' HG|d off g d' raw go rest st ss HG HR Hne Hgo HP HC HL IH]; intros pre Hpre.
+  - constructor.
+  - destruct HR as (sp & dl & Hraw & _ & _).
+    specialize (IH (pre ++ g ++ raw ++ go) ltac:(rewrite !zlen_app; lia)).
+    pose proof (zlen_nonneg g). pose proof (zlen_nonneg go). pose proof (zlen_nonneg raw).
+    pose proof (zlen_nonneg rest). pose proof (zlen_nonneg pre).
+    constructor.
+    + exists (zlen go). split; [assumption|]. split.
+      { intros Hf. destruct Hgo as [->|Hgo]; [reflexivity|congruence]. }
+      split.
+      * unfold TextAtShift. rewrite HP, Hraw.
+        replace (pre ++ g ++ (Text st ++ sp ++ dl) ++ go ++ rest)
+          with ((pre ++ g) ++ Text st ++ (sp ++ dl ++ go ++ rest)) by (rewrite <- !app_assoc; reflexivity).
+        replace (off + zlen g + zlen go - zlen go) with (zlen (pre ++ g)) by (rewrite zlen_app; lia).
+        apply slice_mid.
+      * rewrite HP, !zlen_app. lia.
+    + replace (pre ++ g ++ raw ++ go ++ rest) with ((pre ++ g ++ raw ++ go) ++ rest)
+        by (rewrite <- !app_assoc; reflexivity).
+      exact IH.
+Qed.
+
+Lemma losslessG_comments o d off rest ss : LosslessG o d off rest ss -> forall pre,
+  Forall (fun st => Forall (InGap o (pre ++ rest)) (Comments st)) ss.
+Proof.
+  induction 1 as [d off g d' HG|d off g d' raw go rest st ss HG HR Hne Hgo HP HC HL IH]; intros pre; constructor.
+  - pose proof (GapCs_sound o _ _ _ _ HC pre (Forall_nil _)) as HF. eapply Forall_impl; [|exact HF].
+    intros c (a & b & E & Hc). exists a, (b ++ raw ++ go ++ rest). split; [|exact Hc].
+    rewrite (app_assoc pre g), E, <- !app_assoc. reflexivity.
+  - specialize (IH (pre ++ g ++ raw ++ go)). rewrite <- !app_assoc in IH. exact IH.
+Qed.
+
+Lemma Line_bounds inp p : 0 <= p <= zlen inp -> Line inp p = Ok (line_of inp p).
+Proof.
+  intros H. unfold Line, slice_to.
+  destruct (p <? 0) eqn:E1; [bnorm; lia|]. destruct (zlen inp <? p) eqn:E2; [bnorm; lia|].
+  simpl. unfold line_of. rewrite line_walk_count. reflexivity.
+Qed.
+
+(** carriage returns: [FileReport.Line] counts "\n" only, so "\r\n" ends a line exactly once and a
+    lone "\r" never does: deleting every "\r" before [p] does not change the line. *)
+Definition strip_cr (s : bytes) : bytes := filter (fun b => negb (N.eqb b 13)) s.
+Lemma count_nl_strip_cr s : count_nl (strip_cr s) = count_nl s.
+Proof.
+  induction s as [|a t IH]; [reflexivity|]. unfold strip_cr in *. cbn [filter].
+  destruct (N.eqb a 13) eqn:E; cbn [negb].
+  - rewrite IH, count_nl_cons. apply N.eqb_eq in E. subst a. reflexivity.
+  - rewrite !count_nl_cons, IH. reflexivity.
+Qed.
+Lemma Line_cr inp p : 0 <= p <= zlen inp ->
+  Line inp p = Ok (count_nl (strip_cr (firstn (Z.to_nat p) inp)) + 1).
+Proof.
+  intros H. unfold Line, slice_to.
+  destruct (p <? 0) eqn:E1; [bnorm; lia|]. destruct (zlen inp <? p) eqn:E2; [bnorm; lia|].
+  simpl. rewrite count_nl_strip_cr. reflexivity.
 Qed.
 
 (** * Termination: the depth fuel [length input + 2] is never exhausted *)
@@ -1294,6 +1881,13 @@ Proof.
   inversion H; simpl. unfold zlen. rewrite skipn_length. lia.
 Qed.
 
+Lemma skipGoCount_nf f s : (1 < f)%nat -> rem s + 1 < Z.of_nat f -> skipGoCount f s <> OutOfFuel.
+Proof.
+  unfold skipGoCount. intros Hf Hr H. nf_bind H; [apply pick_nf in H; auto|]. destruct (rune_is a 32); [|discriminate].
+  cbv zeta in H. nf_bind H; [apply pick_nf in H; auto|]. nf_bind H; [eapply to_eol_loop_nf; eauto|].
+  nf_bind H; [apply slice_nf in H; auto|]. destruct (atoi_ok _); discriminate.
+Qed.
+
 Section NestedNF.
 Variable o : opts.
 Variable nested : scanner -> res (scanner * option Stmt).
@@ -1305,7 +1899,6 @@ Hypothesis nested_prog : forall b b' st, pos b = 0 -> delim b <> [] -> nested b 
   zlen (input b') < zlen (input b).
 Hypothesis nested_nf : forall b, pos b = 0 -> delim b <> [] -> zlen (input b) + 2 <= Z.of_nat fn ->
   nested b <> OutOfFuel.
-Hypothesis noGo : GoCommand o = false.
 
 Lemma atomic_loop_nf f : forall s body, pos body = 0 -> delim body <> [] ->
   zlen (input body) < Z.of_nat f -> zlen (input body) + 2 <= Z.of_nat fn ->
@@ -1413,7 +2006,25 @@ Proof.
   { destruct ((pos s =? 1) && (zlen S_DELIMITER <? zlen (input s))) eqn:E; [|discriminate]. bnorm.
     change (zlen S_DELIMITER) with 9 in *.
     nf_bind H; [|discriminate]. eapply delimCmd_nf; [| |exact H]; unfold rem in *; simpl; lia. }
-  clear Ha. rewrite noGo in H. simpl in H.
+  clear Ha. nf_bind H.
+  { destruct (GoCommand o && N.eqb c 10); [|discriminate]. nf_bind H; [apply slice_from_not_fuel in H; auto|discriminate]. }
+  rename a into go1. clear Ha. nf_bind H.
+  { destruct go1; [discriminate|]. destruct (GoCommand o); [|discriminate]. nf_bind H.
+    - destruct (pos s =? 1); [discriminate|]. destruct (1 <? pos s); [|discriminate].
+      nf_bind H; [apply index_nf in H; auto|discriminate].
+    - destruct a; [|discriminate]. nf_bind H; [apply slice_from_not_fuel in H; auto|discriminate]. }
+  rename a into go2. clear Ha. destruct go2.
+  { nf_bind H.
+    { destruct go1; [|discriminate]. nf_bind H; [apply next_nf in H; auto|discriminate]. }
+    rename a into s1. assert (rem s1 <= rem s) as Hr1.
+    { destruct go1; [|injection Ha as <-; lia]. inv_bind_as Ha rs1 Hrs1. injection Ha as <-.
+      destruct rs1 as [r1 s1']. simpl. exact (adv_rem _ _ (next_adv _ _ _ Hrs1)). }
+    clear Ha. nf_bind H; [apply slice_to_nf in H; auto|]. rename a into text. clear Ha.
+    nf_bind H; [apply next_nf in H; auto|]. destruct a as [r2 s2]. pose proof (adv_rem _ _ (next_adv _ _ _ Ha)) as Hr2.
+    nf_bind H; [|discriminate]. simpl in H. destruct r2 as [c2|].
+    - pose proof (next_rem _ _ _ Ha) as Q1. pose proof (next_some_rem _ _ _ Ha) as Q2.
+      eapply skipGoCount_nf; [| |exact H]; lia.
+    - pose proof (next_none _ _ Ha) as [-> _]. unfold skipGoCount, pick in H. rewrite Ha in H. simpl in H. discriminate. }
   nf_bind H.
   { destruct (depth =? 0); [|discriminate]. nf_bind H; [apply slice_from_not_fuel in H; auto|discriminate]. }
   destruct a. { nf_bind H; [apply slice_to_nf in H; auto|discriminate]. }
@@ -1459,7 +2070,7 @@ Lemma stmt_loop_nf lf : forall s d op,
 Proof.
   induction lf as [|lf IH]; intros s d op Hns Hd Hlf Hr Hn H; simpl in H; [lia|].
   nf_bind H; [eapply stmt_iter_nf; [| |exact H]; lia|].
-  pose proof (stmt_iter_spec o nested nested_mono noGo _ _ _ _ _ Ha Hns Hd) as Hit.
+  pose proof (stmt_iter_spec o nested nested_mono _ _ _ _ _ Ha Hns Hd) as Hit.
   destruct a as [s1 d1 o1|s1 text|s1].
   - pose proof (stmt_iter_continue_rem _ _ _ _ _ _ _ Ha) as Hr1.
     destruct Hit as [[A Hlt]|[(S1 & S2 & S3 & S4 & S5) [Hp0 Hlen]]].
@@ -1472,20 +2083,20 @@ End NestedNF.
 
 Section StmtNF.
 Variable o : opts.
-Hypothesis noGo : GoCommand o = false.
 
 Lemma stmt_prog f b b' st : pos b = 0 -> delim b <> [] -> stmt o f b = Ok (b', Some st) ->
   zlen (input b') < zlen (input b).
 Proof.
-  intros Hp Hd H. destruct (stmt_spec o noGo _ _ _ _ H Hp Hd) as (_ & _ & _ & g & raw & Hin & _ & _ & Hne & _).
-  rewrite Hin, !zlen_app. pose proof (zlen_nonneg g).
-  destruct raw; [congruence|]. rewrite zlen_cons. pose proof (zlen_nonneg raw). lia.
+  intros Hp Hd H. destruct (stmt_spec o _ _ _ _ H Hp Hd) as (_ & _ & _ & g & raw & go & Hin & _ & _ & Hne & _).
+  rewrite Hin, !zlen_app. pose proof (zlen_nonneg g). pose proof (zlen_nonneg raw). pose proof (zlen_nonneg go).
+  assert (zlen (raw ++ go) <> 0) as Hnz by (intros Hz; apply zlen_zero in Hz; congruence).
+  rewrite zlen_app in Hnz. lia.
 Qed.
 Lemma stmt_mono f b b' r : pos b = 0 -> delim b <> [] -> stmt o f b = Ok (b', r) ->
   total b <= total b' /\ pos b' = 0 /\ delim b' <> [] /\
   (forall st, r = Some st -> total b + zlen (Text st) <= total b').
 Proof.
-  intros Hp Hd H. eapply (StmtResult_mono o noGo); [eapply (stmt_spec o noGo); eauto|reflexivity|reflexivity].
+  intros Hp Hd H. eapply (StmtResult_mono o); [eapply (stmt_spec o); eauto|reflexivity|reflexivity].
 Qed.
 
 Lemma stmt_nf f : forall s, pos s = 0 -> delim s <> [] -> zlen (input s) + 2 <= Z.of_nat f ->
@@ -1497,7 +2108,7 @@ Proof.
   assert (zlen (trim_left_space (input s)) <= zlen (input s)) as Hle.
   { rewrite Hsp at 2. rewrite zlen_app. pose proof (zlen_nonneg sp). lia. }
   pose proof (zlen_nonneg (trim_left_space (input s))) as Hnn.
-  eapply (stmt_loop_nf o (stmt o f) f); [| | |exact noGo| | | | | |exact H].
+  eapply (stmt_loop_nf o (stmt o f) f); [| | | | | | | |exact H].
   - intros b b' r. apply stmt_mono.
   - intros b b' st. apply stmt_prog.
   - intros b Hb1 Hb2 Hb3. apply IH; auto.
@@ -1793,7 +2404,6 @@ Variable o : opts.
 Variable nested : scanner -> res (scanner * option Stmt).
 Hypothesis nested_safe : forall b, wf b -> pos b = 0 -> delim b <> [] ->
   safe (nested b) (fun r => wf (fst r) /\ src (fst r) = src b /\ pos (fst r) = 0 /\ delim (fst r) <> []).
-Hypothesis noGo : GoCommand o = false.
 
 Definition same (s s' : scanner) : Prop := wf s' /\ src s' = src s /\ input s' = input s /\ pos s <= pos s'.
 
@@ -1912,7 +2522,6 @@ End NestedSafe.
 
 Section NestedSafeTC.
 Variable o : opts.
-Hypothesis noGo : GoCommand o = false.
 Variable nested : scanner -> res (scanner * option Stmt).
 Hypothesis nested_safe : forall b, wf b -> pos b = 0 -> delim b <> [] ->
   safe (nested b) (fun r => wf (fst r) /\ src (fst r) = src b /\ pos (fst r) = 0 /\ delim (fst r) <> []).
@@ -1945,16 +2554,25 @@ Lemma skipBeginTryCatch_safe f s : wf s -> 1 <= pos s ->
   safe (skipBeginTryCatch nested f s) (fun r => same s (fst r)).
 Proof.
   intros W Hp. unfold skipBeginTryCatch.
-  apply (block_safe o nested nested_safe noGo re_begin_try (trycatch_loop nested) false EMissingBeginTry); auto.
+  apply (block_safe nested nested_safe re_begin_try (trycatch_loop nested) false EMissingBeginTry); auto.
   - intros t n E. split; [eapply re_begin_word_pos; exact E|eapply re_begin_word_len; exact E].
   - intros. apply trycatch_loop_safe; auto.
 Qed.
 End NestedSafeTC.
 
+Lemma skipGoCount_safe f s : wf s -> safe (skipGoCount f s) (fun s' => wf s' /\ src s' = src s /\ input s' = input s).
+Proof.
+  intros W. unfold skipGoCount. destruct (pick_safe s W) as (r & Hr). rewrite Hr. cbn [bind].
+  destruct (rune_is r 32); [|simpl; auto]. cbv zeta. cbn [bind].
+  eapply safe_bind; [apply to_eol_loop_safe; exact W|]. intros s1 _ (W1 & S1 & I1 & P1).
+  pose proof W as (V1 & _). pose proof W1 as (U1 & _).
+  eapply safe_bind; [apply slice_safe; lia|]. intros raw _ _.
+  destruct (atoi_ok _); simpl; auto.
+Qed.
+
 Section IterSafe.
 Variable o : opts.
 Variable nested : scanner -> res (scanner * option Stmt).
-Hypothesis noGo : GoCommand o = false.
 
 (** how [depth] / [openingPos] evolve over one iteration *)
 Lemma stmt_iter_depth f s0 depth opos s1 d1 o1 :
@@ -2027,7 +2645,29 @@ Proof.
     intros s1 _ (W1 & S1 & [P1|E1]); [|subst s1]; simpl.
     - split; [apply wf_skipSpaces; auto|simpl in S1; congruence].
     - split; [apply wf_skipSpaces_id; [exact W8|simpl; congruence]|congruence]. }
-  clear HD. rewrite noGo. cbn [andb bind].
+  clear HD.
+  eapply safe_bind with (P := fun _ => True).
+  { destruct (GoCommand o && N.eqb c 10); [|exact I]. eapply safe_bind; [apply slice_from_safe; lia|]. intros; exact I. }
+  intros go1 _ _.
+  eapply safe_bind with (P := fun _ => True).
+  { destruct go1; [exact I|]. destruct (GoCommand o); [|exact I].
+    eapply safe_bind with (P := fun _ => True).
+    - destruct (pos s =? 1); [exact I|]. destruct (1 <? pos s) eqn:E1; [|exact I]. bnorm.
+      eapply safe_bind; [apply index_safe; lia|]. intros; exact I.
+    - intros als _ _. destruct als; [|exact I]. eapply safe_bind; [apply slice_from_safe; lia|]. intros; exact I. }
+  intros go2 _ _. destruct go2.
+  { eapply safe_bind with (P := fun s1 => wf s1 /\ src s1 = src s /\ input s1 = input s /\ 1 <= pos s1).
+    { destruct go1; [|simpl; repeat split; auto; lia].
+      destruct (next_safe s Ws) as (r1 & s1' & Hn1 & W1' & Hsrc1). rewrite Hn1. cbn [bind snd]. simpl.
+      pose proof (next_adv _ _ _ Hn1) as (G1 & _ & _ & G4).
+      split; [exact W1'|split; [exact Hsrc1|split; [exact G1|lia]]]. }
+    intros s1 _ (Ws1 & Ss1 & Is1 & Ps1). pose proof Ws1 as (U1 & U2 & U3).
+    eapply safe_bind; [apply slice_to_safe; lia|]. intros text _ _.
+    destruct (next_safe s1 Ws1) as (r2 & s2 & Hn2 & W2 & Hsrc2). rewrite Hn2. cbn [bind snd].
+    pose proof (next_adv _ _ _ Hn2) as (G2 & _).
+    eapply safe_bind; [apply (skipGoCount_safe f s2 W2)|]. intros s3 _ (W3' & S3 & I3).
+    simpl. split; [apply wf_skipSpaces_id; [exact W3'|]|congruence].
+    rewrite I3, G2, Is1, His. exact Hns. }
   eapply safe_bind with (P := fun b => b = true -> has_prefix (skipn (Z.to_nat (pos s - width s)) (input s)) (delim s) = true).
   { destruct (depth =? 0); [|simpl; discriminate].
     eapply safe_bind; [apply slice_from_safe; lia|]. intros tl _ ->. simpl. auto. }
@@ -2061,13 +2701,13 @@ Proof.
   eapply safe_bind with (P := fun _ => True).
   { destruct (_ && _); [|exact I]. eapply safe_bind; [apply slice_from_safe; lia|]. intros; exact I. }
   intros isAtomic _ _. destruct isAtomic.
-  { eapply safe_weaken; [apply (after_block_safe _ _ _ s); apply (skipBeginAtomic_safe o nested nested_safe noGo); auto; lia|].
+  { eapply safe_weaken; [apply (after_block_safe _ _ _ s); apply (skipBeginAtomic_safe nested nested_safe); auto; lia|].
     intros [s1 d1 o1|s1 t|s1] _ Hsame; simpl in *; try contradiction;
       destruct Hsame as (U1 & U2 & _); (split; [exact U1|congruence]). }
   eapply safe_bind with (P := fun _ => True).
   { destruct (_ && _); [|exact I]. eapply safe_bind; [apply slice_from_safe; lia|]. intros; exact I. }
   intros isTry _ _. destruct isTry.
-  { eapply safe_weaken; [apply (after_block_safe _ _ _ s); apply (skipBeginTryCatch_safe o noGo nested nested_safe nested_mono_s); auto; lia|].
+  { eapply safe_weaken; [apply (after_block_safe _ _ _ s); apply (skipBeginTryCatch_safe nested nested_safe nested_mono_s); auto; lia|].
     intros [s1 d1 o1|s1 t|s1] _ Hsame; simpl in *; try contradiction;
       destruct Hsame as (U1 & U2 & _); (split; [exact U1|congruence]). }
   eapply safe_bind with (P := fun _ => True).
@@ -2075,7 +2715,7 @@ Proof.
     - eapply safe_bind; [apply slice_from_safe; lia|]. intros; exact I.
     - destruct (1 <? pos s) eqn:E; [|exact I]. bnorm. eapply safe_bind; [apply slice_from_safe; lia|]. intros; exact I. }
   intros isBegin _ _. destruct isBegin; [|simpl; auto].
-  eapply safe_weaken; [apply (after_block_safe _ _ _ s); apply (skipBegin_safe o nested nested_safe noGo); auto; lia|].
+  eapply safe_weaken; [apply (after_block_safe _ _ _ s); apply (skipBegin_safe o nested nested_safe); auto; lia|].
   intros [s1 d1 o1|s1 t|s1] _ Hsame; simpl in *; try contradiction;
     destruct Hsame as (U1 & U2 & _); (split; [exact U1|congruence]).
 Qed.
@@ -2084,7 +2724,6 @@ End IterSafe.
 
 Section StmtSafe.
 Variable o : opts.
-Hypothesis noGo : GoCommand o = false.
 
 Definition SafeRes (s : scanner) (r : scanner * option Stmt) : Prop :=
   wf (fst r) /\ src (fst r) = src s /\ pos (fst r) = 0 /\ delim (fst r) <> [].
@@ -2102,11 +2741,11 @@ Lemma stmt_loop_safe lf : forall s d op,
 Proof.
   induction lf as [|lf IH]; intros s d op W Hns Hd Hd0 Hop; simpl; [exact I|].
   pose proof W as (W1 & W2 & W3).
-  eapply safe_bind; [apply (stmt_iter_safe o nested noGo nested_safe nested_mono lf s d op W Hns); intros; lia|].
+  eapply safe_bind; [apply (stmt_iter_safe o nested nested_safe nested_mono lf s d op W Hns); intros; lia|].
   intros st Hst (Wst & Sst).
-  pose proof (stmt_iter_spec o nested nested_mono noGo _ _ _ _ _ Hst Hns Hd) as Hit.
+  pose proof (stmt_iter_spec o nested nested_mono _ _ _ _ _ Hst Hns Hd) as Hit.
   destruct st as [s1 d1 o1|s1 text|s1]; simpl in Wst, Sst.
-  - pose proof (stmt_iter_depth o nested noGo _ _ _ _ _ _ _ Hst) as Hdep.
+  - pose proof (stmt_iter_depth o nested _ _ _ _ _ _ _ Hst) as Hdep.
     assert (input s1 = input s /\ delim s1 = delim s /\ pos s < pos s1 \/
             starts_space (input s1) = false /\ delim s1 <> [] /\ pos s1 = 0 /\ pos s = 0) as Hcase.
     { destruct Hit as [[(A1 & A2 & _ & _) Hlt]|[(S1 & S2 & S3 & _) [Hp0 _]]]; [left; auto|right; auto]. }
@@ -2134,7 +2773,7 @@ Proof.
   destruct (trim_left_decomp (input s)) as (sp & Hsp & Hsp2 & Hsp3).
   eapply safe_weaken.
   - apply (stmt_loop_safe (stmt o f)).
-    + intros b b' r. apply (stmt_mono o noGo).
+    + intros b b' r. apply (stmt_mono o).
     + exact IH.
     + apply wf_skipSpaces; auto.
     + exact Hsp3.
